@@ -42,7 +42,7 @@ PLANS = [["bbox", "get_components!", "bbox"], ["bbox", "remove_points", "bbox"],
          ["bbox", "to_torch", "get_components!"], ["interpolate", "to_torch", "get_components"], ["interpolate", "bbox", "remove_points"], ["focus", "bbox", "flip", "interpolate"],
          ["normalize", "bbox", "get_components!", "bbox"], ["remove_components", "bbox", "interpolate"], ["get_components!", "interpolate", "bbox", "zero_filled"],
          ["bbox", "interpolate", "get_components!", "bbox"], ["slice_step", "interpolate", "slice_step"], ["to_torch", "get_components!", "remove_points"],
-         ["focus", "flip", "focus"], ["focus", "flip", "focus", "bbox"], ["focus", "focus"]]      # a second focus finds the smallest coordinate already at 0 on some axes only
+         ["focus", "flip", "focus"], ["focus", "flip", "focus", "bbox"], ["focus", "focus"], ["select_none"], ["flip", "select_none", "copy"]]      # a second focus finds the smallest coordinate already at 0 on some axes only
 
 
 READ_PLANS = [["focus"], ["focus", "bbox"], ["copy", "focus"], ["normalize_distribution", "focus"], ["focus", "get_components!"], ["flip", "focus", "interpolate"], ["focus", "flip", "focus"]]
@@ -86,6 +86,9 @@ def run(ctx):
         seed = rng.randrange(10 ** 9)
         seed -= seed % 3 if kind == "one point (read)" else 0
         jobs.append({"case": case, "seed": seed, "length": 3, "start": "numpy", "allow_tf": False, "plan": None if kind == "declared 0x0" else (["focus"] if kind.startswith("one") else ["focus", "flip"]), "planned_case": kind})
+    # planned, every run: an empty filter — the pose of no frames is well-formed and serialisable
+    for plan_ in (["select_none"], ["flip", "select_none", "copy"], ["select_none", "slice_step"]):
+        jobs.append({"case": c09.gen_case(rng), "seed": rng.randrange(10 ** 9), "length": len(plan_), "start": "numpy", "allow_tf": False, "plan": plan_, "planned_case": "no frames"})
     # planned, every run: a non-finite coordinate (+inf, NaN) at ONE observed point — such a pose is well-formed (missing is decided by the confidences), and
     # stays so through the normalisers (an arithmetic that masks non-finite results would mark an observed coordinate missing)
     for bits in (0x7F800000, 0x7FC00000, 0xFF800000):
